@@ -343,13 +343,41 @@ def unroll_const_loops(fn):
         body = _elim_continue(list(loop.body))
         if body is None:
             return None
+        # locals of one iteration (bound by a plain assignment before any
+        # use in the body, dead after the loop) get a name per iteration:
+        # `r = yield q(a); acc.append(r.raw_value)` keeps two answers apart
+        per_iter = set()
+        if len(rows) > 1:
+            for st_ in body:
+                if isinstance(st_, ast.Assign) and len(
+                        st_.targets) == 1 and isinstance(
+                            st_.targets[0], ast.Name):
+                    nm = st_.targets[0].id
+                    if nm in per_iter or nm in tnames:
+                        continue
+                    earlier = body[:body.index(st_)]
+                    if any(isinstance(n, ast.Name) and n.id == nm
+                           for e_ in earlier for n in ast.walk(e_)) or any(
+                               isinstance(n, ast.Name) and n.id == nm
+                               for n in ast.walk(st_.value)):
+                        continue
+                    if _loaded_outside(fn, loop, nm) or any(
+                            isinstance(n, (ast.Global, ast.Nonlocal))
+                            for n in ast.walk(fn)):
+                        continue
+                    per_iter.add(nm)
         res = []
-        for elt in rows:
+        for k_, elt in enumerate(rows):
             env, pre = {}, []
             if not _bind(loop.target, elt, env, pre):
                 return None
             sub = _SubstNames(env)
             copy_ = [sub.visit(acopy(b)) for b in body]
+            if per_iter:
+                for c_ in copy_:
+                    for n in ast.walk(c_):
+                        if isinstance(n, ast.Name) and n.id in per_iter:
+                            n.id = "%s__%d" % (n.id, k_)
             for p in pre:
                 ast.copy_location(p, loop)
             res += pre + copy_
@@ -815,7 +843,8 @@ def _detable(fn, info):
 
 
 # ---------------------------------------------------------------------------
-def expand_table_lookups(fn, resolve_table, nonnull=None, max_rest=40):
+def expand_table_lookups(fn, resolve_table, nonnull=None, max_rest=40,
+                         only_stmt=False):
     """Lookups in a constant table become the if-chain they abbreviate:
 
         f = T.get(k)           if k == K1: REST[f := V1]
@@ -871,10 +900,30 @@ def expand_table_lookups(fn, resolve_table, nonnull=None, max_rest=40):
 
     def chain(key, rws, mk, default_block, seq=False):
         out = default_block
+        keys = [k.value for (k, v) in rws if isinstance(k, ast.Constant)]
+        boolkey = len(keys) == len(rws) and all(
+            type(k) is bool for k in keys) and isinstance(
+                key, (ast.Compare, ast.BoolOp, ast.UnaryOp)) and not (
+                    isinstance(key, ast.BoolOp))
         for (k, v) in reversed(rws):
-            test = ast.Compare(acopy(key), [ast.Eq()], [acopy(k)])
+            if boolkey:
+                # a table indexed by the outcome of a test
+                test = acopy(key) if k.value else ast.UnaryOp(
+                    ast.Not(), acopy(key))
+            else:
+                test = ast.Compare(acopy(key), [ast.Eq()], [acopy(k)])
             out = [ast.If(test, mk(v), out)]
         return out
+
+    def stmt_lookup(s):
+        """The one table lookup inside an expression statement (typically
+        `yield T[k](args)`), or None."""
+        found = []
+        for n in ast.walk(s):
+            lk = lookup(n)
+            if lk is not None:
+                found.append((n, lk))
+        return found[0] if len(found) == 1 else None
 
     def block(stmts):
         out = []
@@ -891,7 +940,8 @@ def expand_table_lookups(fn, resolve_table, nonnull=None, max_rest=40):
             if isinstance(s, ast.Try):
                 for h in s.handlers:
                     h.body = block(h.body)
-            if isinstance(s, ast.Return) and s.value is not None:
+            if isinstance(s, ast.Return) and s.value is not None and \
+                    not only_stmt:
                 lk = lookup(s.value)
                 if lk is not None and pure(lk[1]):
                     t, key, dflt = lk
@@ -923,8 +973,49 @@ def expand_table_lookups(fn, resolve_table, nonnull=None, max_rest=40):
                         count[0] += 1
                         i += 1
                         continue
+            if isinstance(s, ast.Expr):
+                fl = stmt_lookup(s)
+                if fl is not None and only_stmt and not any(
+                        isinstance(n, ast.Call) and n.func is fl[0]
+                        for n in ast.walk(s)):
+                    fl = None      # data tables are left to the rules
+                if fl is not None and pure(fl[1][1]):
+                    node, (t, key, dflt) = fl
+                    rws = rows(t)
+                    if rws is not None and len(rws) <= MAX_ROWS:
+                        idx = [k_ for k_, n in enumerate(ast.walk(s))
+                               if n is node][0]
+
+                        def mk(v, s=s, idx=idx):
+                            c = acopy(s)
+                            tgt = list(ast.walk(c))[idx]
+
+                            class R(ast.NodeTransformer):
+                                def visit(self, n):
+                                    if n is tgt:
+                                        return acopy(v)
+                                    return super().visit(n)
+                            return [R().visit(c)]
+                        if dflt == "raise":
+                            tail = [ast.Raise(ast.Call(ast.Name(
+                                "KeyError" if isinstance(t, ast.Dict)
+                                else "IndexError", ast.Load()), [], []),
+                                None)]
+                            if not isinstance(t, ast.Dict):
+                                tail = None
+                        else:
+                            tail = mk(dflt)
+                        if tail is not None:
+                            new = chain(key, rws, mk, tail)
+                            for x in new:
+                                ast.copy_location(x, s)
+                                ast.fix_missing_locations(x)
+                            out += new
+                            count[0] += 1
+                            i += 1
+                            continue
             if isinstance(s, ast.Assign) and len(s.targets) == 1 and \
-                    isinstance(s.targets[0], ast.Name):
+                    isinstance(s.targets[0], ast.Name) and not only_stmt:
                 lk = lookup(s.value)
                 name = s.targets[0].id
                 rest = stmts[i + 1:]
